@@ -401,6 +401,9 @@ func CurrentThread() int { return must().cur.ID }
 type Explorer struct {
 	PBound int // preemption bound
 	EBound int // environment deviation bound
+	// FBound bounds the non-default choices taken where the running thread is
+	// blocked or finished (free switches); 0 = unbounded, n > 0 = at most n-1.
+	FBound int
 	Opts   Options
 	// Shard/NShards partition the first-deviation subtrees between workers.
 	Shard, NShards int
@@ -416,8 +419,8 @@ type Explorer struct {
 }
 
 type pending struct {
-	prefix []int
-	p, e   int
+	prefix  []int
+	p, e, f int
 }
 
 // Explore runs system under every choice sequence within the bounds, in
@@ -459,18 +462,20 @@ func (x *Explorer) Explore(system func(), visit func(r *Result, preemptions, dev
 			if res.Outcome == "stuck" {
 				return
 			}
-			p, e := it.p, it.e
+			p, e, fr := it.p, it.e, it.f
 			// deviations taken inside the prefix are already counted in it.p/it.e
 			for i := len(it.prefix); i < len(res.Points); i++ {
 				pt := res.Points[i]
 				for alt := 1; alt < pt.N; alt++ {
-					cp, ce := p, e
+					cp, ce, cf := p, e, fr
 					if pt.Env {
 						ce++
 					} else if pt.PreemptCost {
 						cp++
+					} else {
+						cf++
 					}
-					if cp > x.PBound || ce > x.EBound {
+					if cp > x.PBound || ce > x.EBound || (x.FBound > 0 && cf > x.FBound-1) {
 						continue
 					}
 					if root {
@@ -494,7 +499,7 @@ func (x *Explorer) Explore(system func(), visit func(r *Result, preemptions, dev
 					if lv < level {
 						lv = level
 					}
-					buckets[lv] = append(buckets[lv], pending{prefix: np, p: cp, e: ce})
+					buckets[lv] = append(buckets[lv], pending{prefix: np, p: cp, e: ce, f: cf})
 					queued++
 				}
 			}
